@@ -132,4 +132,36 @@ let () =
          | _ -> failwith ("bad schedule line: " ^ line)
        end
      done
-   with End_of_file -> ())
+   with End_of_file -> ());
+  (* final state, in the harness's format *)
+  let s = !st in
+  let all_cmds = List.concat (List.rev !threads) in
+  let consumed c = List.exists (fun cm -> match cm with
+      | CIntoInner (c', _) -> int_of_n c' = c | CDropStore c' -> int_of_n c' = c | _ -> false) all_cmds in
+  List.iteri (fun c _ ->
+      if not (consumed c) then
+        Printf.printf ". FINAL store %d %s\n" c (string_of_n (s.sh.mem (LStore (n_of_int c))))) !inits;
+  for k = 0 to 199 do
+    let a = n_of_int (4096 + 16 * k) in
+    match s.sh.heap a with
+    | Some oid -> Printf.printf ". FINAL cell %s %s %s\n" (string_of_n a) (string_of_n (s.sh.mem (LCount a))) (string_of_n oid)
+    | None -> ()
+  done;
+  for h = 0 to 511 do
+    match s.hnd (n_of_int h) with
+    | HEmpty -> ()
+    | HOwned a -> Printf.printf ". FINAL handle %d O %s\n" h (string_of_n a)
+    | HGuard (a, _) -> Printf.printf ". FINAL handle %d G %s\n" h (string_of_n a)
+    | HCache (_, _) -> Printf.printf ". FINAL handle %d C ?\n" h
+  done;
+  let nn = int_of_n (s.sh.mem LHead) in
+  for nd = 0 to nn - 1 do
+    let ndn = n_of_int nd in
+    for i = 0 to 8 do
+      let v = s.sh.mem (LSlot (ndn, n_of_int i)) in
+      if string_of_n v <> "3" then
+        Printf.printf ". FINAL slot %d %d %s\n" nd i (string_of_n v)
+    done;
+    Printf.printf ". FINAL node %d %s %s %s %s\n" nd (string_of_n (s.sh.mem (LInUse ndn)))
+      (string_of_n (s.sh.mem (LWriters ndn))) (string_of_n (s.sh.mem (LCtrl ndn))) (string_of_n (s.sh.mem (LOffer ndn)))
+  done
